@@ -111,7 +111,9 @@ Trim(I, O) ==
          newfz  == {k \in kids : k \notin needed0 /\ ~IsRangeAddr(k)}
          \* the cell mapping an unbounded range onto its bounded range is kept:
          \* a reloaded model needs it to resolve the range
+         \* and so is the range of an array formula (nothing else holds its formula)
          keep   == needed0 \cup newfz \cup (kids \cap Aliases)
+                     \cup {k \in kids \cap Ranges : Def[k].kind = "CSE"}
      IN  /\ \A i \in I : i \in st.built /\ (InGraph(i, st.edges) \/ i \in O)
          /\ built' = st.built \cap keep
          /\ cache' = [x \in Nodes |-> IF x \in st.built \cap keep THEN st.cache[x] ELSE NoneV]
